@@ -226,6 +226,11 @@ def parseDots? (s : String) : Option (List Nat) := mapM? parseHex? (s.splitOn ".
 
 /-! ### dispatch -/
 
+/-- branch tag for the evidence: how many chunks the parallel branch splits `n` items into -/
+def chunkTag (n k : Nat) : String :=
+  let c := (n + k - 1) / k
+  if c ≤ 1 then " @chunks≤1" else if n % k = 0 then " @chunks>1" else " @chunks>1+tail"
+
 def sfftNaive {p : Nat} : List (Fp p) → Fp p → Nat → Outcome (List (Fp p)) :=
   fun a omega _ => .ok (naiveDft a omega)
 
@@ -237,16 +242,21 @@ def run (op : String) (args : List String) (impl : String) : Option (String × S
   | "binv", [t, p, coeff, v] => do
     let t ← parseHex? t; let p ← parseHex? p; let coeff ← parseHex? coeff; let v ← parseList? v
     let v := toFp p v; let coeff := Fp.ofNat p coeff
-    some (showOpt (chunkedBatchInv t v coeff), vs impl (showL (specBinv v coeff)))
+    some (showOpt (chunkedBatchInv t v coeff) ++ chunkTag v.length (max (v.length / t) 1),
+          vs impl (showL (specBinv v coeff)))
   | "dpow", [t, p, g, c, v] => do
     let t ← parseHex? t; let p ← parseHex? p; let g ← parseHex? g; let c ← parseHex? c; let v ← parseList? v
     let v := toFp p v; let g := Fp.ofNat p g; let c := Fp.ofNat p c
-    some (showL (distributePowersPar t v g c), vs impl (showL (specDpow v g c)))
+    some (showL (distributePowersPar t v g c) ++ chunkTag v.length (max (v.length / t) 1024),
+          vs impl (showL (specDpow v g c)))
   | "eval", [t, p, x, v] => do
     let t ← parseHex? t; let p ← parseHex? p; let x ← parseHex? x; let v ← parseList? v
     let v := toFp p v; let x := Fp.ofNat p x
     -- `from_coefficients_vec` strips trailing zeros before `evaluate` runs
-    some (hex (evaluatePar t (trim v) x).val, vs impl (hex (evalPow v x).val))
+    let c := trim v
+    let tag := if polyIsZero c then " @zero" else if x = 0 then " @point0"
+               else chunkTag c.length (max (c.length / t) MIN_ELEMENTS_PER_THREAD)
+    some (hex (evaluatePar t c x).val ++ tag, vs impl (hex (evalPow v x).val))
   | "mfft", [t, p, size, lg, gen, off, dir, v] => do
     let t ← parseHex? t; let p ← parseHex? p; let size ← parseHex? size; let lg ← parseHex? lg
     let gen ← parseHex? gen; let off ← parseHex? off; let v ← parseList? v
@@ -255,23 +265,25 @@ def run (op : String) (args : List String) (impl : String) : Option (String × S
     let d : MixedDomain (Fp p) :=
       { size := size, logSizeOfGroup := lg, sizeInv := (Fp.ofNat p size)⁻¹, groupGen := g,
         groupGenInv := g⁻¹, offset := h, offsetInv := h⁻¹ }
+    let tag := if lg ≤ log2Floor t then " @serial_fft" else " @parallel_fft"
     if impl == "panic" then
-      some (showO (if dir == "f" then mixedFftPar t sfftNaive d (toFp p v) else mixedIfftPar t sfftNaive d (toFp p v)), "bad:panic")
+      some (showO (if dir == "f" then mixedFftPar t sfftNaive d (toFp p v) else mixedIfftPar t sfftNaive d (toFp p v)) ++ tag, "bad:panic")
     else if dir == "f" then
-      some (showO (mixedFftPar t sfftNaive d (toFp p v)), judgeFft 4096 p size gen off (v.take size) o 0)
+      some (showO (mixedFftPar t sfftNaive d (toFp p v)) ++ tag, judgeFft 4096 p size gen off (v.take size) o 0)
     else if dir == "i" then
-      some (showO (mixedIfftPar t sfftNaive d (toFp p v)), judgeIfft 4096 p size gen off v o 0)
+      some (showO (mixedIfftPar t sfftNaive d (toFp p v)) ++ tag, judgeIfft 4096 p size gen off v o 0)
     else none
   | "r2fft", [t, p, _kind, size, gen, off, dir, v] => do
     let t ← parseHex? t; let p ← parseHex? p; let size ← parseHex? size
     let gen ← parseHex? gen; let off ← parseHex? off; let v ← parseList? v
-    if impl == "panic" then some ("any", "bad:panic") else
+    let any := "any" ++ (if log2Ceil size ≤ LOG_ROOTS_OF_UNITY_PARALLEL_SIZE then " @roots_serial" else " @roots_recursive")
+    if impl == "panic" then some (any, "bad:panic") else
     let o ← parseList? impl
     let seed := t * 2654435761 + size + v.headD 0
     -- every index up to 256 points (64 over multi-limb moduli), sampled beyond
     let full := if p < 2 ^ 32 then 256 else 64
-    if dir == "f" then some ("any", judgeFft full p size gen off (v.take size) o seed)
-    else if dir == "i" then some ("any", judgeIfft full p size gen off v o seed)
+    if dir == "f" then some (any, judgeFft full p size gen off (v.take size) o seed)
+    else if dir == "i" then some (any, judgeIfft full p size gen off v o seed)
     else none
   | "evalod", [t, p, size, gen, off, v] => do
     let t ← parseHex? t; let p ← parseHex? p; let size ← parseHex? size
